@@ -118,6 +118,7 @@ class ModelFS:
             return _WFile(self, ino)
         if path not in self.names:
             raise FileNotFoundError(2, "No such file", path)
+        self.step("open-r")  # opening an existing file for reading is a file-system call that can fail too (EMFILE, EIO, EACCES)
         f = io.StringIO(self.names[path].disk)
         f.name = path
         return f
